@@ -53,6 +53,7 @@ StructA(repr, ts, fa) == T("struct", repr, 0, ts, fa)
 \* variant: k = "var", n = first version the variant exists in, ts = field types
 \*          s = "" (implicit discriminant) or the explicit discriminant as decimal string
 Var(from, ts)    == T("var", "", from, ts, [i \in 1..Len(ts) |-> Plain])
+NVar(from, ts)   == T("var", "{}", from, ts, [i \in 1..Len(ts) |-> Plain])   \* variant with NAMED fields  V { f0: .., f1: .. }
 VarD(d, ts)      == T("var", d, 0, ts, [i \in 1..Len(ts) |-> Plain])
 Enum(repr, vars) == T("enum", repr, 0, vars, <<>>)
 \* n > 0 on an enum node: the enum has n variants in total, all unit, of which
